@@ -260,6 +260,24 @@ func c10Scenario() *Scenario {
 	return s
 }
 
+// streamSameBlock: all ordered pairs of operations on one stream in the same block (0 s gap).
+func streamSameBlock(name string, after func(e *Exec, obs *TxObs, _, _ map[string][]mc.KV) []Disc) *Scenario {
+	s := &Scenario{Name: name, Genesis: streamGenesis(), KeyTimeNs: true, AfterTx: after}
+	op := func(n string, m model.Msg) Action { return Action{Name: n, Dt: time.Second, Txs: tx1(m)} }
+	core := []Action{
+		op("create(A->R1,600nund@10)", model.Msg{Kind: model.StrCreate, From: "A", To: "R1", Den: mc.Nund, Amt: "600", Rate: 10}),
+		op("claim(R1<-A)", model.Msg{Kind: model.StrClaim, From: "R1", To: "A"}),
+		op("topup(A->R1,65nund)", model.Msg{Kind: model.StrTopUp, From: "A", To: "R1", Den: mc.Nund, Amt: "65"}),
+		op("update(A->R1,@3)", model.Msg{Kind: model.StrUpdate, From: "A", To: "R1", Rate: 3}),
+		op("cancel(A->R1)", model.Msg{Kind: model.StrCancel, From: "A", To: "R1"}),
+	}
+	s.Actions = append(s.Actions, core...)
+	s.Actions = append(s.Actions, pairLetters(core...)...)
+	s.Actions = append(s.Actions, govOnce("gov(fee=0.5)", model.StrParams, "0.500000000000000000"))
+	s.Actions = append(s.Actions, timeSteps(400, 700*time.Millisecond, 30*time.Second, 61*time.Second)...)
+	return s
+}
+
 func init() {
 	Checks["C10"] = func() *Check {
 		return &Check{
@@ -267,6 +285,9 @@ func init() {
 			Runs: []Run{{S: c10Scenario(), Opt: map[Tier]Options{
 				Quick:    {Depth: 4, Budget: 150 * time.Second, ReplayEvery: 4},
 				Thorough: {Depth: 7, Budget: 15 * time.Minute, ReplayEvery: 8, MaxStates: 400000},
+			}}, {S: streamSameBlock("streams-same-block", streamConservation), Opt: map[Tier]Options{
+				Quick:    {Depth: 3, Budget: 60 * time.Second, ReplayEvery: 8},
+				Thorough: {Depth: 5, Budget: 6 * time.Minute, ReplayEvery: 8, MaxStates: 300000},
 			}}},
 			// escrow backing at block boundaries, conservation / fee split / ledger from observed movements, registered invariant,
 			// and no transfer into the escrow account
